@@ -519,7 +519,8 @@ class Molecules:
         translation_0 = np.stack([np.eye(4, dtype=np.float32)] * nmole, axis=0)
         translation_1 = np.stack([np.eye(4, dtype=np.float32)] * nmole, axis=0)
         translation_0[:, :3, 3] = dst
-        translation_1[:, :3, 3] = -src
+        # NOTE: negating an unsigned integer array wraps around
+        translation_1[:, :3, 3] = -np.asarray(src, dtype=np.float32)
 
         return np.einsum("nij,njk,nkl->nil", translation_0, rot_mat, translation_1)
 
